@@ -167,7 +167,7 @@ class MystReferenceResolver(ReferencesResolver):
         if node["refexplicit"]:
             caption = node.astext()
             innernode = nodes.inline(caption, "", classes=inner_classes)
-            innernode.extend(node[0].children)
+            innernode.extend(child.deepcopy() for child in node[0].children)
         else:
             if not implicit_text:
                 # e.g. the local id was not found: fall back to the document title,
@@ -308,7 +308,7 @@ class MystReferenceResolver(ReferencesResolver):
             docname, labelid = stddomain.anonlabels.get(target, ("", ""))
             sectname = node.astext()
             innernode = nodes.inline(sectname, "")
-            innernode.extend(node[0].children)
+            innernode.extend(child.deepcopy() for child in node[0].children)
         else:
             # reference to named label; the final node will
             # contain the section name after the label
@@ -337,7 +337,7 @@ class MystReferenceResolver(ReferencesResolver):
             # reference with explicit title
             caption = node.astext()
             innernode = nodes.inline(caption, "", classes=["doc"])
-            innernode.extend(node[0].children)
+            innernode.extend(child.deepcopy() for child in node[0].children)
         else:
             caption = clean_astext(self.env.titles[docname])
             innernode = nodes.inline(caption, caption, classes=["doc"])
